@@ -82,7 +82,10 @@ def hook(w, job, part):
         w.cov('C14', ('newtoken', i))
     def util_restart(action):
         """C_Finalize; softhsm2-util acts on the directory; C_Initialize"""
-        w.H('restart', 'util-' + action); w.c('C_Finalize'); ti = rnd.randrange(len(w.m.toks)); t = w.m.toks[ti]
+        ti = rnd.randrange(len(w.m.toks)); t = w.m.toks[ti]
+        def cli_safe(b): return b is None or (all(33 <= c < 127 for c in b) and len(b) > 0)
+        if not (cli_safe(t.so) and cli_safe(t.label)): return          # the command line cannot carry NUL or non-ASCII PIN bytes faithfully
+        w.H('restart', 'util-' + action); w.c('C_Finalize')
         if action == 'init':      # re-initialise an existing token by label (right or wrong SO PIN)
             right = rnd.random() < 0.7; pin = t.so if right else t.so + b'x'; label = b'utok%d-%d' % (ti, rnd.randrange(1000)); upin = b'util-user-%d' % rnd.randrange(1000)
             rc, out = run_util('--init-token', '--token', t.label.decode(), '--label', label.decode(), '--so-pin', pin.decode('latin-1'), '--pin', upin.decode())
